@@ -292,33 +292,145 @@ func (c *cv) genOp(pl *plan) mutOp {
 type obs struct {
 	Devices []string
 	Dev     map[string]string // name -> path|prio|device JSON  ("<nil>")
+	Vendors []string
+	Classes []string
+	VSpecs  map[string]string // vendor -> paths of the Specs GetVendorSpecs returns
 	ErrKeys []string          // restricted to Spec-file paths
 	Inject  string            // OCI spec after injecting every listed device ("" when nothing resolves)
 	InjErr  string
 	Refresh string // the lines of the error returned by Refresh(), sorted ("" = nil)
 }
 
+// queryKinds are the queries documented to refresh an auto-refreshed cache
+// when needed.  A client may use any one of them alone: whichever comes first
+// after a change must bring the cache up to date.
+var queryKinds = []string{"ListDevices", "GetDevice", "ListVendors", "ListClasses", "GetVendorSpecs", "InjectDevices"}
+
+func vendorsOf(probe []string) []string {
+	set := map[string]bool{}
+	for _, q := range probe {
+		if i := strings.Index(q, "/"); i > 0 {
+			set[q[:i]] = true
+		}
+	}
+	return sortedKeys(set)
+}
+
+// touch issues ONE query of the given kind (the first thing a client does).
+func touch(c *cdi.Cache, probe []string, kind string) {
+	sort.Strings(probe)
+	switch kind {
+	case "ListDevices":
+		_ = c.ListDevices()
+	case "GetDevice":
+		if len(probe) > 0 {
+			_ = c.GetDevice(probe[0])
+		} else {
+			_ = c.GetDevice("vendor.com/gpu=none")
+		}
+	case "ListVendors":
+		_ = c.ListVendors()
+	case "ListClasses":
+		_ = c.ListClasses()
+	case "GetVendorSpecs":
+		v := "vendor.com"
+		if vs := vendorsOf(probe); len(vs) > 0 {
+			v = vs[0]
+		}
+		_ = c.GetVendorSpecs(v)
+	case "InjectDevices":
+		name := "vendor.com/gpu=none"
+		if len(probe) > 0 {
+			name = probe[0]
+		}
+		_, _ = c.InjectDevices(&oci.Spec{}, name)
+	}
+}
+
 // observe reads everything through queries.  withRefresh also records the
 // value of Refresh(): harmless in auto mode (it does not force a rescan) and
 // for a throw-away reference cache, but it would rescan a manual cache.
 func observe(c *cdi.Cache, probe []string, withRefresh ...bool) *obs {
-	o := &obs{Dev: map[string]string{}}
-	o.Devices = c.ListDevices()
-	names := map[string]bool{}
-	for _, n := range o.Devices {
-		names[n] = true
+	return observeFirst(c, probe, "ListDevices", len(withRefresh) > 0 && withRefresh[0])
+}
+
+// observeFirst is observe with the query of kind first issued before all
+// others, and its answer being the one recorded for that part of the
+// observation: if that query alone fails to bring the cache up to date, the
+// observation shows the stale answer.
+func observeFirst(c *cdi.Cache, probe []string, first string, withRefresh bool) *obs {
+	o := &obs{Dev: map[string]string{}, VSpecs: map[string]string{}}
+	listed := false
+	parts := map[string]func(){
+		"ListDevices": func() { o.Devices = c.ListDevices(); listed = true },
+		"GetDevice": func() {
+			names := map[string]bool{}
+			for _, n := range o.Devices {
+				names[n] = true
+			}
+			for _, n := range probe {
+				names[n] = true
+			}
+			for _, n := range sortedKeys(names) {
+				if _, done := o.Dev[n]; done {
+					continue
+				}
+				d := c.GetDevice(n)
+				if d == nil {
+					o.Dev[n] = "<nil>"
+					continue
+				}
+				b, _ := json.Marshal(d.Device)
+				o.Dev[n] = fmt.Sprintf("%s|%d|%s", d.GetSpec().GetPath(), d.GetSpec().GetPriority(), b)
+			}
+		},
+		"ListVendors": func() { o.Vendors = c.ListVendors() },
+		"ListClasses": func() { o.Classes = c.ListClasses() },
+		"GetVendorSpecs": func() {
+			set := map[string]bool{}
+			for _, v := range vendorsOf(probe) {
+				set[v] = true
+			}
+			for _, v := range o.Vendors {
+				set[v] = true
+			}
+			for _, v := range sortedKeys(set) {
+				if _, done := o.VSpecs[v]; done {
+					continue
+				}
+				var paths []string
+				for _, s := range c.GetVendorSpecs(v) {
+					paths = append(paths, s.GetPath())
+				}
+				sort.Strings(paths)
+				o.VSpecs[v] = strings.Join(paths, ",")
+			}
+		},
+		"InjectDevices": func() {
+			names := o.Devices
+			if !listed {
+				names = append([]string(nil), probe...)
+				sort.Strings(names)
+			}
+			if len(names) > 0 {
+				spec := &oci.Spec{}
+				_, err := c.InjectDevices(spec, names...)
+				if err != nil {
+					o.InjErr = err.Error()
+				}
+				b, _ := json.Marshal(spec)
+				o.Inject = fmt.Sprintf("%v -> %s", names, b)
+			}
+		},
 	}
-	for _, n := range probe {
-		names[n] = true
-	}
-	for _, n := range sortedKeys(names) {
-		d := c.GetDevice(n)
-		if d == nil {
-			o.Dev[n] = "<nil>"
-			continue
+	parts[first]()
+	for _, k := range queryKinds {
+		if k != first {
+			parts[k]()
 		}
-		b, _ := json.Marshal(d.Device)
-		o.Dev[n] = fmt.Sprintf("%s|%d|%s", d.GetSpec().GetPath(), d.GetSpec().GetPriority(), b)
+	}
+	if first == "GetDevice" || first == "GetVendorSpecs" {
+		parts[first]() // the names that only the listings reveal (the others keep their first answer)
 	}
 	for k := range c.GetErrors() {
 		if ext := filepath.Ext(k); ext == ".json" || ext == ".yaml" {
@@ -326,19 +438,10 @@ func observe(c *cdi.Cache, probe []string, withRefresh ...bool) *obs {
 		}
 	}
 	sort.Strings(o.ErrKeys)
-	if len(withRefresh) > 0 && withRefresh[0] {
+	if withRefresh {
 		if err := c.Refresh(); err != nil {
 			o.Refresh = refreshLines(err)
 		}
-	}
-	if len(o.Devices) > 0 {
-		spec := &oci.Spec{}
-		_, err := c.InjectDevices(spec, o.Devices...)
-		if err != nil {
-			o.InjErr = err.Error()
-		}
-		b, _ := json.Marshal(spec)
-		o.Inject = string(b)
 	}
 	return o
 }
@@ -363,6 +466,24 @@ func diffObs(a, b *obs) string {
 	for _, n := range sortedKeys(names) {
 		if a.Dev[n] != b.Dev[n] {
 			return fmt.Sprintf("definition|GetDevice(%s) = %s, a fresh cache returns %s", n, a.Dev[n], b.Dev[n])
+		}
+	}
+	if !eqStrings(a.Vendors, b.Vendors) {
+		return fmt.Sprintf("vendors|ListVendors = %v, a fresh cache lists %v", a.Vendors, b.Vendors)
+	}
+	if !eqStrings(a.Classes, b.Classes) {
+		return fmt.Sprintf("classes|ListClasses = %v, a fresh cache lists %v", a.Classes, b.Classes)
+	}
+	vs := map[string]bool{}
+	for v := range a.VSpecs {
+		vs[v] = true
+	}
+	for v := range b.VSpecs {
+		vs[v] = true
+	}
+	for _, v := range sortedKeys(vs) {
+		if a.VSpecs[v] != b.VSpecs[v] {
+			return fmt.Sprintf("vendor-specs|GetVendorSpecs(%s) = [%s], a fresh cache returns [%s]", v, a.VSpecs[v], b.VSpecs[v])
 		}
 	}
 	if !eqStrings(a.ErrKeys, b.ErrKeys) {
@@ -534,16 +655,20 @@ func converge(r *core.Run, reconfigure bool) {
 		probe = append(probe, q)
 	}
 	// first query round: this is where missing or removed directories are re-added
-	e.do("queries-1", func() { _ = observe(e.cache, probe) })
+	// A client may use any one kind of query alone: the first round is ONE
+	// query of a drawn kind, the observed round starts with the same kind.
+	first := queryKinds[src.Intn(len(queryKinds))]
+	r.Knob("first_query", first)
+	e.do("queries-1", func() { touch(e.cache, probe, first) })
 	e.w.Quiesce()
 	r.CheckHealth("quiescence after the first query round")
 	var got *obs
-	e.do("queries-2", func() { got = observe(e.cache, probe, true) })
+	e.do("queries-2", func() { got = observeFirst(e.cache, probe, first, true) })
 	// reference 1: a fresh manual cache built by the real code on the final disk
 	var want *obs
 	e.do("fresh-cache", func() {
 		fresh, _ := cdi.NewCache(cdi.WithSpecDirs(c.dirs...), cdi.WithAutoRefresh(false))
-		want = observe(fresh, probe, true)
+		want = observeFirst(fresh, probe, first, true)
 	})
 	if d := diffObs(got, want); d != "" {
 		parts := strings.SplitN(d, "|", 2)
